@@ -158,6 +158,10 @@ class SimWorld:
                 self.n_updates += 1
                 self.boundary()
             self.closed_market = True
+        if st_ == "remove":
+            # a withdrawal re-prices matched bets by exchange rule (reduction factor): the worst case of positions the
+            # control admitted can worsen afterwards without any new order - the consequence clauses stop there
+            self.removal_seen = True
         if st_ == "reopen":
             if not self.closed_market:
                 return
@@ -914,7 +918,7 @@ class SimWorld:
 
     def inv_exposure_consequence(self):
         """under acknowledgement discipline the worst case on each selection stays within the limit"""
-        if not self.cfg.get("discipline"):
+        if not self.cfg.get("discipline") or getattr(self, "removal_seen", False):
             return
         for strat in self.lab.strategies:
             lim = strat.max_selection_exposure
@@ -938,7 +942,7 @@ class SimWorld:
 
     def check_realised(self):
         """after closure: realised loss per selection within the limit (discipline runs only)"""
-        if not self.cfg.get("discipline") or not self.closed_market:
+        if not self.cfg.get("discipline") or not self.closed_market or getattr(self, "removal_seen", False):
             return
         for strat in self.lab.strategies:
             lim = strat.max_selection_exposure
